@@ -172,10 +172,19 @@ func VerifC12_ScratchReset() {
 // result. Unless the inner frame ended with STOP, nothing it did is observable afterwards.
 func VerifC12_InnerFrameKinds() {
 	kind := symx.Choice("kind", 3)
-	mut := symx.Choice("mut", 3)
+	mut := symx.Choice("mut", 6)
 	end := symx.Choice("end", 4)
 	var inner []byte
 	switch mut {
+	case 3: // SELFDESTRUCT to C (destroys B under CALL, A under CALLCODE / DELEGATECALL)
+		inner = c12Push(inner, 0xc3)
+		inner = append(inner, byte(SELFDESTRUCT))
+	case 4: // CALL with value 3 to the fresh account C
+		inner = c12Push(inner, 0, 0, 0, 0, 3, 0xc3)
+		inner = append(inner, byte(PUSH2), 0xff, 0xff, byte(CALL), byte(POP))
+	case 5: // CREATE with value 2 and empty init code (bumps the creator's nonce)
+		inner = c12Push(inner, 0, 0, 2)
+		inner = append(inner, byte(CREATE), byte(POP))
 	case 0:
 		inner = c12Push(inner, 9, 1)
 		inner = append(inner, byte(SSTORE))
@@ -215,14 +224,16 @@ func VerifC12_InnerFrameKinds() {
 	st.SetBalance(c12B, big.NewInt(50))
 	st.IntermediateRoot(false)
 	before := c12Observe(st, thash)
-	slotB, tslotB := st.GetState(c12B, c12Key), st.GetTransientState(c12B, c12Key)
+	slotB, tslotB, nonceB := st.GetState(c12B, c12Key), st.GetTransientState(c12B, c12Key), st.GetNonce(c12B)
 	_, _, _, err := evm.Call(AccountRef(c12Orig), c12A, nil, 1_000_000, new(big.Int))
 	symx.Check(err == nil, "the outer frame swallows the inner result and ends successfully")
 	after := c12Observe(st, thash)
-	if end != 3 {
+	// SELFDESTRUCT halts its frame successfully: whatever follows it is never executed
+	if end != 3 && mut != 3 {
 		c12Same(before, after, "failed inner frame")
 		symx.Check(st.GetState(c12B, c12Key) == slotB, "failed inner frame: storage of the callee unchanged")
 		symx.Check(st.GetTransientState(c12B, c12Key) == tslotB, "failed inner frame: transient storage of the callee unchanged")
+		symx.Check(st.GetNonce(c12B) == nonceB, "failed inner frame: nonce of the callee unchanged")
 		st2, _, _ := c12Setup(code)
 		st2.SetCode(c12B, inner)
 		st2.SetBalance(c12B, big.NewInt(50))
@@ -230,7 +241,10 @@ func VerifC12_InnerFrameKinds() {
 	} else {
 		// vacuity guard: a successful inner frame does leave its trace
 		changed := after.slot != before.slot || after.tslot != before.tslot || after.nlogs != before.nlogs ||
-			st.GetState(c12B, c12Key) != slotB || st.GetTransientState(c12B, c12Key) != tslotB
+			st.GetState(c12B, c12Key) != slotB || st.GetTransientState(c12B, c12Key) != tslotB ||
+			after.suicidedA != before.suicidedA || after.suicidedB != before.suicidedB ||
+			after.balA.Cmp(before.balA) != 0 || after.balB.Cmp(before.balB) != 0 || after.balC.Cmp(before.balC) != 0 ||
+			after.nonceA != before.nonceA || st.GetNonce(c12B) != nonceB
 		symx.Check(changed, "a successful inner frame is observable (the harness reaches the mutator)")
 		symx.Reach("success")
 	}
